@@ -107,6 +107,16 @@ PROPS = {
         level_text="Generated-input search over call histories: 4-40 calls of every exported function over a pool of shared buffers (documents, patches, merge patches, malformed texts) and shared decoded Patch values, v5 and the staged legacy package. After every call all inputs (with sentinel-filled spare capacity), every Patch and every earlier output must be unchanged; a call signature must give the same result (bytes for Apply/ApplyIndent/CreateMergePatch/Equal/DecodePatch, JSON value for MergePatch/MergeMergePatches, error text) wherever it occurs, with a reused or fresh Patch, forwards and again in reverse order; sampled calls must equal the result of a fresh process doing only that call. Exploration only.",
         level_note="Trusted: harness/calls (call execution and snapshots), os/exec re-execution of the test binary as the history-free reference. Purity is observed on the public API; package-level defaults are not varied.",
     ),
+    "C10": dict(
+        pkg="c10",
+        units=[rapid("TestProp", 400, 5000, race=True, memlimit="6GiB", shrinktime="20s"), rapid("TestPropLegacy", 200, 2500, race=True, memlimit="6GiB", shrinktime="20s")],
+        assumptions=COMMON_ASSUME + ["the Go race detector (go1.23.5, -race) reports unsynchronised conflicting accesses that execute during a workload; schedules are sampled, not enumerated",
+                                     "the expected result of each call is the one computed sequentially in the same process before the goroutines start (C09 separately checks that results do not depend on history)",
+                                     "the staged legacy root package is built from /repo's working tree as module github.com/evanphx/json-patch"],
+        technique="property-based testing (rapid) of generated concurrent workloads under the Go race detector: shared Patch values and buffers, generated GOMAXPROCS/yields/rounds, cold starts in fresh processes; oracle = race reports + equality with sequentially computed results + unchanged shared inputs",
+        level_text="Generated-input search over concurrent workloads built with -race: 2-16 goroutines behind a start barrier run generated call lists (all exported functions, mostly the same calls on the same shared Patch values and buffers, some on private copies) for 1-3 rounds under GOMAXPROCS 1/2/4/16 with generated yields; some workloads run as cold starts in a fresh process so that first uses of pools and caches are concurrent. Any race report, any result that differs from the sequentially computed one (bytes for Apply/CreateMergePatch/Equal, JSON value for the merge functions, error text) and any change to a shared input is a violation. Exploration: schedules are sampled; the race detector makes detection depend on the conflicting accesses executing, not on the corrupting interleaving occurring.",
+        level_note="Trusted: the Go race detector and runtime, harness/calls. A logical race on correctly synchronised state is only seen if it changes a result during the stress (DESIGN.md section 6). Package-level defaults are never written during a workload.",
+    ),
     "C11": dict(
         pkg="c11", units=[rapid("TestProp", 20000, 200000), plain("TestTable", shards=dict(quick=1, thorough=1))], assumptions=COMMON_ASSUME,
         technique="property-based testing (rapid) over member mutations of valid patches plus an exhaustively enumerated single-mutation table; independent validator as oracle",
